@@ -643,6 +643,13 @@ let compare_obs (ts : tstate) (m : mon) (o : obs) =
   (* the value a read returns depends on whether readOnlyLoop or applyLoop wins the lock after a
      common wake-up (both orders are legal): reads are compared on payload and time of resolution only *)
   let norm r = match String.split_on_char ':' r with ["Read"; p; _] -> "Read:" ^ p ^ ":*" | _ -> r in
+  (* a future answered inside the very section in which the node then freezes at a storage write is never seen by
+     anybody (the harness cannot poll a frozen node, and the process dies next): such answers are not compared *)
+  List.iter (fun mn ->
+      if mn.n_frozen then
+        List.iter (fun (fid, r) ->
+            let x = (int_of_n fid, norm (result_s r)) in
+            if not (List.mem x ts.seen_results) then ts.seen_results <- x :: ts.seen_results) mn.n_results) w.w_nodes;
   let model_results = List.concat_map (fun mn -> List.map (fun (fid, r) -> (int_of_n fid, norm (result_s r))) mn.n_results) w.w_nodes in
   let fresh = List.filter (fun r -> not (List.mem r ts.seen_results)) model_results in
   let impl = List.map (fun (fid, _, r) -> (fid, norm r)) o.results in
